@@ -1,7 +1,7 @@
 (* Property C19 — the GraphML reader never panics: any input yields Ok(valid graph) or Err.
    Only pinned statements; proofs live in Proofs/GraphMLOk.v.  [evs] ranges over
    EVERY sequence of results quick-xml's read_event_into can produce (start /
-   empty / end / text / other / eof / error, attribute items ok or erroneous),
+   empty / end / text / comment / other / eof / error, attribute items ok or erroneous),
    [parse] over every behaviour of str::parse::<f64>. *)
 From Coq Require Import List NArith ZArith Bool.
 From GV Require Import Base.Outcome Base.AMap Model.GState Model.Creation Model.XmlEscape Model.GraphML.
@@ -19,9 +19,10 @@ Theorem C19_reader_error_kind : forall (parse : bytes -> option weight) (evs : l
   read_elements parse evs = Err k -> k = ReadError.
 Proof. exact read_elements_error_kind. Qed.
 
-(* the result is ReadError exactly when the document is refused and otherwise the
-   constructor (C01 semantics) applied to exactly the node elements in order, the
-   edge elements in order with their weight data, and the declared directedness *)
+(* the result is ReadError exactly when the document is refused (a parser error anywhere, a malformed
+   element, a weight that is no number) and otherwise the constructor (C01 semantics) applied to exactly
+   the node elements of the document in order, the edge elements in order with their weight data, and
+   the declared directedness; every event of the document is looked at (Spec/GraphMLDef.v doc_elems) *)
 Theorem C19_ok_content : forall (parse : bytes -> option weight) (evs : list event) (s : specs),
   read_events parse evs s =
   match doc_content parse evs with
@@ -48,7 +49,7 @@ Proof. exact read_events_error_kinds. Qed.
 Theorem C19_ok_directed : forall (parse : bytes -> option weight) (evs : list event) (s : specs) (g : ggraph),
   read_events parse evs s = Ok g ->
   exists els,
-    doc_elems parse evs s_weight LNone = Some els /\
+    doc_elems parse evs s_weight LNone false = Some els /\
     new_from_nodes_and_edges bytes_eqb bytes_ltb (el_nodes els) (el_edges els)
       (with_directed (el_directed true els) s) = Ok g /\
     sp g = with_directed (el_directed true els) s /\
